@@ -234,9 +234,14 @@ class BrokerMachine(object):
         fraction of a cent, in which case transferring it must be refused)"""
         return round(float(self.master), 2)
 
+    def quoted_cash(self, pid):
+        """a portfolio's cash as its history quotes it: rounded to cents (may exceed the true cash by a fraction of a
+        cent, in which case withdrawing it must be refused - and a refusal moves nothing)"""
+        return round(float(self.pfs[pid].cash), 2)
+
     def touched(self, ev):
         """Portfolios whose history can have grown in the step that executed ev."""
-        if ev[0] in ('pf_sub', 'pf_wd', 'pf_direct_sub', 'pf_sub_quoted'):
+        if ev[0] in ('pf_sub', 'pf_wd', 'pf_direct_sub', 'pf_sub_quoted', 'pf_wd_quoted'):
             return {ev[1]}
         if ev[0] == 'tick':
             return set(pid for pid, _ in self.step_txns)
@@ -272,8 +277,10 @@ class BrokerMachine(object):
                 expect_exc = ValueError
             elif self.clock < self.pfs[ev[1]].clock:
                 expect_exc = ValueError        # the portfolio refuses a timestamp earlier than its clock
-        elif kind == 'pf_wd':
-            a = F(ev[2])
+        elif kind in ('pf_wd', 'pf_wd_quoted'):
+            if kind == 'pf_wd_quoted' and ev[1] not in self.pfs:
+                raise HarnessError('pf_wd_quoted on unknown portfolio in alphabet')
+            a = F(ev[2]) if kind == 'pf_wd' else F(repr(self.quoted_cash(ev[1])))
             if a < 0:
                 expect_exc = ValueError
             elif ev[1] not in self.pfs:
@@ -327,6 +334,8 @@ class BrokerMachine(object):
                 b.subscribe_funds_to_portfolio(ev[1], float(ev[2]))
             elif kind == 'pf_wd':
                 b.withdraw_funds_from_portfolio(ev[1], float(ev[2]))
+            elif kind == 'pf_wd_quoted':
+                b.withdraw_funds_from_portfolio(ev[1], self.quoted_cash(ev[1]))
             elif kind == 'submit':
                 from qstrader.execution.order import Order
                 self.submitted += 1
@@ -419,9 +428,9 @@ class BrokerMachine(object):
             p.cash += a
             p.clock = self.clock
             p.hist.append(('subscription', self.clock, Fraction(0), a, p.cash))
-        elif kind == 'pf_wd':
+        elif kind in ('pf_wd', 'pf_wd_quoted'):
             p = self.pfs[ev[1]]
-            a = F(ev[2])
+            a = F(ev[2]) if kind == 'pf_wd' else F(repr(self.quoted_cash(ev[1])))
             self.master += a
             p.cash -= a
             p.clock = self.clock
